@@ -16,6 +16,15 @@ CHECKS = {
              "inside a critical section are excluded by eq_mtx; internal aios are covered as far as the traced tests reach them.",
         technique="TLA+ model checking (TLC) + gated edge-cover replay + TLC trace validation of hook traces",
         ref="DESIGN.md section 4, C02"),
+    "C05": dict(
+        text="TLA+ specs proto/Sub.tla (contexts, topic sets, prefix match, per-context queues with drop-oldest/drop-new, requeue "
+             "filter on unsubscribe, receive pollable) and proto/Pub.tla (clone per subscriber, per-pipe queue, drop-oldest, never "
+             "blocks) in macro steps, model checked for delivery-iff-match, independence of contexts, order/no duplication, bounds "
+             "and readiness; TLC -simulate behaviours (Sub) and the complete edge cover (Pub) replayed on the real sockets.",
+        note="Trusted: TLC, harness, hooks, ASan/UBSan. Topics/bodies over a 2-letter alphabet with lengths 0..2 and one over-long topic; "
+             "macro-step grain; xsub (raw) not modelled.",
+        technique="TLA+ model checking (TLC) + simulation/edge-cover replay through a harness transport",
+        ref="DESIGN.md section 4, C05"),
     "C06": dict(
         text="TLA+ specs proto/Push.tla and proto/Pull.tla: one action per critical section of push.c/pull.c, environment actions of the "
              "harness transport (connect, take, inject, peer loss) and explicit pending callbacks (task gate), model checked for "
